@@ -1,5 +1,7 @@
 package rapid
 
+import "time"
+
 // C05 / C01: the shrinker only moves to smaller buffers that still fail at the same site.
 
 
@@ -166,4 +168,42 @@ func H_C05_shrinkSteps() {
 	vassert(compareData(buf, start) <= 0, "C05: shrink() returned a test case larger than the one it was given")
 	vassert(err2 != nil && traceback(err2) == traceback(err), "C05: shrink() returned a different failure")
 	reach("shrunk")
+}
+
+// H_C01_shrinkDeadline: the real shrink() cut short at ANY point. The clock is symbolic (every
+// time.Now() is an arbitrary instant not earlier than the previous one), so the deadline may fall
+// between any two readings - before the first candidate, between the two runs of one accept(),
+// in the middle of a pass. The property draws two booleans and always fails at one site with a
+// message that names the values it drew. Whatever shrink() returns must belong together: the
+// returned buffer, replayed, fails with exactly the returned error (message included).
+func H_C01_shrinkDeadline() {
+	flags.debug, flags.debugvis = false, false
+	symClock(true)
+	prop := func(t *T) {
+		a := Bool().Draw(t, "a")
+		b := Bool().Draw(t, "b")
+		// (the branches make the message a concrete string on every path: the executor does not
+		// format symbolic values)
+		msg := "failed with a=false"
+		if a {
+			msg = "failed with a=true"
+		}
+		if b {
+			msg += " b=true"
+		} else {
+			msg += " b=false"
+		}
+		t.Fatalf("%s", msg)
+	}
+	s := newBufBitStream(symWords("w", 2), true)
+	err := checkOnce(newT(nil, s, false, nil), prop)
+	vassert(err != nil && !err.isInvalidData(), "C01: harness property did not fail")
+	deadline := time.Now().Add(time.Duration(1 + choose("budget", 3)))
+	buf, err2 := shrink(nilTB{}, deadline, s.recordedBits, err, prop)
+	errR := checkOnce(newT(nil, newBufBitStream(append([]uint64(nil), buf...), false), false, nil), prop)
+	vassert(errR != nil && err2 != nil && sameError(errR, err2), "C01: what the shrinker returns does not belong together: the buffer, replayed, fails differently from the failure it is reported with (minimisation cut short)")
+	if time.Now().After(deadline) {
+		reach("deadline-passed")
+	}
+	reach("returned")
 }
